@@ -189,8 +189,44 @@ pub fn run(ctx: &Ctx) -> Outcome {
         }
         rep.finish()
     });
+    // ---- state shared through something keyed too coarsely (a process-wide cache keyed by the IV or by the key only) ----
+    // Run on this thread alone, after the parallel parts have joined: instance A (key 1, IV 1) runs a history that includes
+    // exports; then instance B is created under (other key, same IV), (same key, other IV) or (same key, same IV) and must
+    // behave like a fresh instance.  The expectation comes from the reference model, not from another run of the real code.
+    let mut rs = Report::new("shared-state/sequential".to_string());
+    for cfg in &cfgs {
+        let ks = keys(seed, cfg.key_len);
+        for w in all_kinds(cfg) {
+            let iv = pattern(seed, 0x1717, w.iv_len(cfg));
+            let iv2 = pattern(seed, 0x1719, w.iv_len(cfg));
+            let data = pattern(seed, 0xC16, (par_of(cfg) + 2) * cfg.bs + 8);
+            let label = w.label();
+            let n_base = w.n_ops();
+            for h in histories(w.n_ops_ext(), if light(cfg, tier) > 0 { 1 } else { 2 }) {
+                // only histories that end with an operation of the base alphabet's observation kind or any data call: all of them
+                for (kb, ivb, what) in [(&ks[1], &iv, "another key and the same IV"), (&ks[0], &iv2, "the same key and another IV"), (&ks[0], &iv, "the same key and IV")] {
+                    let want = w.ref_first_two_ops(cfg, kb, ivb, &data);
+                    rs.case(|| {
+                        let mut a = w.make(cfg, &ks[0], &iv);
+                        for &op in &h {
+                            a.op(cfg, op, &data);
+                        }
+                        let mut b = w.make(cfg, kb, ivb);
+                        for (i, wanted) in want.iter().enumerate() {
+                            let obs = b.op(cfg, i, &data);
+                            ensure!(obs == *wanted, format!("later_instance_affected/{label}"), "{}: after another instance ran {:?}, a NEW instance under {} observed {} at its step {} ({}) but the reference for a fresh instance is {}", w.ty(), h.iter().map(|o| w.op_name(cfg, *o)).collect::<Vec<_>>(), what, short(&obs), i, w.op_name(cfg, i), short(wanted));
+                        }
+                        drop(a);
+                        Ok(())
+                    });
+                }
+            }
+            let _ = n_base;
+        }
+    }
     let mut o = merge(reports);
     extend(&mut o, merge(r2));
+    extend(&mut o, merge(vec![rs.finish()]));
     // the assumption behind call-granular exploration, made visible: hidden shared state in the sources
     let mut hits = vec![];
     for krate in ["belt-ctr", "cbc", "cfb-mode", "cfb8", "ctr", "cts", "ige", "ofb", "pcbc"] {
